@@ -219,6 +219,7 @@ def check(ctx):
     R.start_closure(ctx, prog, "C15.D1s")      # a failed start leaves a state that destroy (analysed above) fully releases
     from . import c08
     c08.wait_rules(ctx, prog)                  # the until-deadline wait of the default policy: bounded, and sees an exited child
+    clock_rule(ctx, prog, "C15.D7")            # "once the deadline has passed - never before": a clock that follows real time
     # destroy is analysed from every state of the handle invariant: every other call must leave the handle inside it (C14.L2),
     # in particular a failed or interrupted wait must leave it 'running' so that destroy still stops and reaps the child
     R.c14_closure(ctx, prog)
